@@ -235,6 +235,65 @@ KIND_OF = {"int": "int", "float": "float", "str": "str", "bool": "bool", "bytes"
            "timedelta": "timedelta", "UUID": "uuid", "Color": "enum", "Level": "enum", "Kind": "enum", "Rank": "enum"}
 
 
+def values_of_shape(kind, sh, rng):
+    """concrete values of one (kind, value shape) pair of Codec.tla"""
+    out = []
+    for _ in range(6):
+        if kind == "datetime":
+            tz = {"naive": None, "utc": datetime.timezone.utc, "plus": datetime.timezone(datetime.timedelta(hours=rng.choice([1, 8]), minutes=rng.choice([0, 45]))),
+                  "minus": datetime.timezone(datetime.timedelta(hours=-rng.choice([1, 9]), minutes=-rng.choice([0, 30])))}[sh["tz"]]
+            out.append(datetime.datetime(rng.randint(1971, 2100), rng.randint(1, 12), rng.randint(1, 28), rng.randint(0, 23), rng.randint(0, 59), rng.randint(0, 59),
+                                         rng.choice([1, 500000, 999999]) if sh["frac"] else 0, tzinfo=tz))
+        elif kind == "time":
+            out.append(datetime.time(rng.randint(0, 23), rng.randint(0, 59), rng.randint(0, 59), rng.choice([1000, 500000, 999000]) if sh["frac"] == "ms" else 0))
+        elif kind == "timedelta":
+            td = datetime.timedelta(days=rng.randint(1, 500) if sh["days"] else 0, seconds=rng.randint(1, 86399), microseconds=rng.choice([1, 500000]) if sh["frac"] else 0)
+            out.append(-td if sh["sign"] == "neg" else td)
+        elif kind == "decimal":
+            out.append({"integral": D(rng.randint(-10 ** 9, 10 ** 9)), "fractional": D(rng.randint(-10 ** 9, 10 ** 9)) / D(1000) + D("0.0005"),
+                        "beyond53": D(2 ** 53 + rng.randint(1, 10 ** 6))}[sh["form"]])
+        else:
+            out.append(datetime.date(rng.randint(1, 9999), rng.randint(1, 12), rng.randint(1, 28)))
+    return out
+
+
+def shape_replay(ck, rng, JSONEncoder):
+    """spec -> code: every (kind, shape) pair of MC_Codec, exported by TLC, is exercised with concrete values through the real encoder and
+    parser; the emitted form must be the one Codec!Enc names (checked again by TLC in Trace_Codec)"""
+    import os
+    import shutil
+    d = tlc.scratch("cd-")
+    try:
+        out = os.path.join(d, "pairs.ndjson")
+        tlc.run("Export_Codec", "Export_Codec.cfg", env={"OUT_CASES": out}, workers=1)
+        pairs = [json.loads(l) for l in open(out) if l.strip()]
+    finally:
+        shutil.rmtree(d, ignore_errors=True)
+    ann = {"datetime": "datetime", "time": "time", "timedelta": "timedelta", "decimal": "Decimal", "date": "date"}
+    recs = []
+    for pi, p in enumerate(pairs):
+        ns = {}
+        exec(PRELUDE, ns)
+        exec("class T(Schema):\n    f0: %s\n" % ann[p["kind"]], ns)
+        T = ns["T"]
+        for vi, v in enumerate(values_of_shape(p["kind"], p["shape"], rng)):
+            if shape_of(p["kind"], v) != p["shape"]:
+                raise MachineryError("concretisation of %s %s produced a value of shape %s" % (p["kind"], p["shape"], shape_of(p["kind"], v)))
+            inst = T(f0=v)
+            r = {"encoded": True, "stdjson": True, "decoded": True, "cin": canon(inst), "cout": "", "exc": ""}
+            forms, text = [], ""
+            try:
+                text = json.dumps(inst, cls=JSONEncoder)
+                raw = json.loads(text)
+                forms.append({"kind": p["kind"], "shape": p["shape"], "form": lexical(p["kind"], raw["f0"])})
+                r["cout"] = canon(T.__from__(text))
+            except Exception as e:
+                r["decoded"], r["exc"] = False, type(e).__name__ + ": " + str(e)[:80]
+            recs.append({"id": "c14-s%d-%d" % (pi, vi), "r": r, "forms": forms, "types": [ann[p["kind"]]], "text": text[:300]})
+    ck.count("model_shapes_replayed_into_code", len(pairs))
+    return recs
+
+
 def main():
     ck = Check("C14", level="exploration")
     thorough = ck.tier == "thorough"
@@ -249,7 +308,7 @@ def main():
         raise MachineryError("P_ShapeRoundTrips not refuted on Variant=orig")
     ck.count("orig_variant_refuted_by_TLC")
     from utype import JSONEncoder
-    records, n = [], 0
+    records, n = shape_replay(ck, rng, JSONEncoder), 0
     for ci in range(2500 if thorough else 90):
         anns = [rng.choice(FIELD_TYPES) for _ in range(rng.randint(1, 4))]
         ns = {}
